@@ -587,5 +587,11 @@ class Agg:
                 raise EngineFault('garbled log line in %s: %s' % (path, r['raw']))
 
 
+def shash(obj):
+    """stable replacement for hash(): python randomises str hashes per process, which would make the case lists differ between runs"""
+    import zlib
+    return zlib.crc32(repr(obj).encode())
+
+
 def rng(seed):
     return random.Random(int(seed))
